@@ -226,7 +226,7 @@ def refusal_matrix():
     ok_before = {"op": "upload", "index": 0x2100, "sub": 0}
     ok_after = {"op": "download", "index": 0x2100, "sub": 0, "data": b"abcdefghijk", "style": "seg_size"}
     for dt in sorted(rc.NUMERIC):
-        for access in ("rw", "ro", "wo", "const"):
+        for access in ("rw", "ro", "wo", "const", "rwr", "rww"):
             od = [good, {"kind": "var", "index": 0x2000, "name": "num", "dt": dt, "access": access,
                          "default": 1 if dt in rc.INTEGERS else 1.5},
                   {"kind": "record", "index": 0x2001, "name": "rec", "members": [
